@@ -6,7 +6,7 @@ registered checks always run /verif against /repo itself.  Everything lives unde
 import sys, os, json, subprocess, threading, queue, shutil
 
 VERIF = os.path.dirname(os.path.dirname(os.path.abspath(__file__)))
-ROOT = '/tmp/par'
+ROOT = os.environ.get('PAR_ROOT', '/tmp/par')
 
 
 def sh(cmd, **kw):
